@@ -129,6 +129,19 @@ def mk_tree(t, objs):
     raise ValueError(t)
 
 
+# field-less leaves by their vote in resolve_is_aggregate (is_aggregate class attribute): None abstains
+LEAF_VOTES = {"interval": None, "interval_q": None, "qmark": None, "named": None, "value": None,
+              "null": False, "literal": False, "systime": False}
+
+
+def mk_leaf(kind):
+    from pypika.terms import Interval, QmarkParameter, NamedParameter, ValueWrapper, NullValue, LiteralValue
+    from pypika import SYSTEM_TIME
+    return {"interval": lambda: Interval(days=1), "interval_q": lambda: Interval(quarters=2, dialect=None),
+            "qmark": lambda: QmarkParameter(), "named": lambda: NamedParameter("p"), "value": lambda: ValueWrapper("v"),
+            "null": lambda: NullValue(), "literal": lambda: LiteralValue("CURRENT_DATE"), "systime": lambda: SYSTEM_TIME}[kind]()
+
+
 def mk_rterm(t, objs, top=True):
     k = t[0]
     if k == "str":
@@ -139,13 +152,21 @@ def mk_rterm(t, objs, top=True):
         return mk_field(t[1], t[2], objs)
     if k == "const":
         return 7
+    if k == "leaf":
+        return mk_leaf(t[1])
     if k == "fn":
         from pypika.terms import Function, AggregateFunction, AnalyticFunction
         args = [mk_rterm(a, objs, False) for a in t[2]]
         cls = {"plain": Function, "agg": AggregateFunction, "analytic": AnalyticFunction}[t[1]]
         return cls("F" + t[1].upper(), *args)
     if k == "arith":
-        return mk_rterm(t[1], objs, False) + mk_rterm(t[2], objs, False)
+        from pypika.terms import Term, ValueWrapper
+        l, r = mk_rterm(t[1], objs, False), mk_rterm(t[2], objs, False)
+        if not isinstance(l, Term) and not isinstance(r, Term):     # e.g. 7 + Interval: give '+' a Term to dispatch on
+            l = ValueWrapper(l) if not hasattr(l, "get_sql") else l
+            r = ValueWrapper(r) if not isinstance(l, Term) else r
+        # both spellings of a sum: the operator (falls back to __radd__ when the left operand is no Term) and '-'
+        return l - r if t[0] == "arith" and len(t) > 3 and t[3] == "-" else l + r
     raise ValueError(t)
 
 
